@@ -101,6 +101,8 @@ func runC02(r *oblig.Report) {
 	e5path.FirstPositionEvidence(c.P, r, "C02.1c")
 	e5path.ErrorConstructors(c.P, r, "R5.5", fs, []string{"UnsupportedDSLNestingError", "ConditionNameDoesntMatchError", "ConditionParamMissingGenericTypeError"})
 	e5path.HoistShape(c.P, r, "C02.4")
+	r.Rule("C02.5", "instance-table", "the brackets of a direct assignment are written only around a non-empty restriction list (the grammar does not derive '[]')", 1)
+	e5path.NoEmptyRestrictionList(c.P, r, "C02.5", fs)
 	e5path.NoEmptySuccess(c.P, r, "C02.7", fs)
 	e5path.CompleteIteration(c.P, r, "R1.6", []string{"transformer.parseUnion", "transformer.parseIntersection", "transformer.parseTypeRestrictions"})
 	e5path.AllPartsPrinted(c.P, r, "C02.6")
